@@ -73,6 +73,8 @@ struct St {
     sm: Rc<RefCell<SessionManager>>,
     live: BTreeMap<i128, usize>, // token -> slab key
     filler: Vec<usize>,
+    /// session-side extra entries (the backend tokens of live sessions)
+    backs: Vec<usize>,
     /// oracle bookkeeping (independent of the model): which live token holds which (cluster, ip)
     held: BTreeSet<(i128, i128, i128)>,
 }
@@ -84,6 +86,14 @@ impl St {
     }
     fn tracked(&self, t: i128, c: i128, i: i128) -> bool {
         self.count(c, i) >= 1 && !self.sm.borrow().cluster_ip_at_limit(tok(t), &cl(c), &ip(i), Some(1))
+    }
+    /// accepting resumes when load drops: a worker that serves nobody and holds no session entry
+    /// admits a connection, however many listeners it has
+    fn idle_must_admit(&self, out: &mut Out, admitted: bool) {
+        let max = self.sm.borrow().max_connections;
+        if !admitted && max >= 1 && self.live.is_empty() && self.backs.is_empty() {
+            out.viol("accept-gate-closed-idle", &format!("max_connections={max}, no connection is served, the slab holds {} entries none of which is a session, and check_limits refuses", self.sm.borrow().slab.len()));
+        }
     }
     /// the property's own predicates on the implementation
     fn oracle(&self, out: &mut Out, what: &str) {
@@ -131,6 +141,7 @@ fn run(case: &Case, out: &mut Out) {
                 sm: SessionManager::new(slab, a[0].n() as usize, lim, 0),
                 live: BTreeMap::new(),
                 filler: vec![],
+                backs: vec![],
                 held: BTreeSet::new(),
             });
             out.obs(&[]);
@@ -234,6 +245,9 @@ fn run(case: &Case, out: &mut Out) {
                 // create_sessions then asks check_limits for every queued socket
                 let gate = s.sm.borrow().can_accept;
                 let ok = gate && s.sm.borrow_mut().check_limits();
+                if gate {
+                    s.idle_must_admit(out, ok);
+                }
                 if ok {
                     let d: Rc<RefCell<dyn ProxySession>> = Rc::new(RefCell::new(Dummy { token: tok(t), proto: Protocol::HTTP }));
                     let key = s.sm.borrow_mut().slab.insert(d);
@@ -331,8 +345,25 @@ fn run(case: &Case, out: &mut Out) {
                 }
                 out.obs(&[tn(s.sm.borrow().slab.len())]);
             }
+            "backfill" => {
+                for _ in 0..a[0].n() {
+                    let d: Rc<RefCell<dyn ProxySession>> = Rc::new(RefCell::new(Dummy { token: Token(6000), proto: Protocol::HTTP }));
+                    let key = s.sm.borrow_mut().slab.insert(d);
+                    s.backs.push(key);
+                }
+                out.obs(&[tn(s.sm.borrow().slab.len())]);
+            }
+            "unbackfill" => {
+                for _ in 0..a[0].n() {
+                    if let Some(k) = s.backs.pop() {
+                        s.sm.borrow_mut().slab.remove(k);
+                    }
+                }
+                out.obs(&[tn(s.sm.borrow().slab.len())]);
+            }
             "check" => {
                 let r = s.sm.borrow_mut().check_limits();
+                s.idle_must_admit(out, r);
                 out.obs(&[tbool(r), tbool(s.sm.borrow().can_accept)]);
             }
             "dump" => {
